@@ -73,6 +73,36 @@ class Perm(enum.IntFlag):
     W = 2
 
 Odd = enum.Enum("Odd", {"a-b": 1, "class": "kw"})
+
+class SStr(str):
+    def __repr__(self):
+        return "SStr(%s)" % str.__repr__(self)
+LS = SStr("sa")
+
+from mashumaro.types import SerializableType
+class Weird(SerializableType):
+    """user type whose own code rejects inputs with exotic exceptions"""
+    def __init__(self, v):
+        self.v = v
+    def __eq__(self, o):
+        return type(o) is Weird and o.v == self.v
+    def __repr__(self):
+        return "Weird(%r)" % (self.v,)
+    def _serialize(self):
+        return {"weird": self.v}
+    @classmethod
+    def _deserialize(cls, value):
+        if isinstance(value, dict) and "weird" in value:
+            return cls(value["weird"])
+        if isinstance(value, str):
+            raise RuntimeError("no")
+        if isinstance(value, bool):
+            raise StopIteration
+        if isinstance(value, int):
+            raise ZeroDivisionError
+        if isinstance(value, list):
+            raise AssertionError
+        raise KeyError(value)
 from typing_extensions import TypeVar as XTypeVar
 '''
 
@@ -80,7 +110,7 @@ from typing_extensions import TypeVar as XTypeVar
 SCALAR_EXPRS = ["int", "float", "bool", "str", "None"]
 NONSCALAR_EXPRS = [
     "List[int]", "List[str]", "Dict[str, int]", "Tuple[int, str]", "Tuple[int, ...]", "List[date]",
-    "date", "datetime", "UUID", "Decimal", "DC1", "DC2", "DC3", "Color", "Num", "Kind", "Perm", "bytes",
+    "date", "datetime", "UUID", "Decimal", "DC1", "DC2", "DC3", "Color", "Num", "Kind", "Perm", "Weird", "bytes",
     "List[Union[int, date]]", "Dict[str, Union[None, int, str]]", "Literal['a', 1]", "Sequence[int]",
     "List[Optional[int]]",
 ]
@@ -100,6 +130,7 @@ CURATED_UNIONS = [
     "Union[bytes, str]", "Union[List[Union[int, date]], str]", "Union[datetime, date, str]",
     "Union[date, datetime]", "Union[Dict[str, int], DC1, str]", "Union[float, str, None]",
     "Union[int, Num]", "Union[Num, int]", "Union[Kind, str]", "Union[str, Kind, None]", "Union[Decimal, str]", "Union[None, int, str]",
+    "Union[Weird, str]", "Union[Weird, int, List[int]]", "Union[Weird, bool, Dict[str, int]]",
 ]
 
 DECODE_INPUTS = [
@@ -108,7 +139,7 @@ DECODE_INPUTS = [
     "'None'", "'2020-01-01'", "'2020-01-01T10:20:30'", "'r'", "'g'", "'eA==\\n'", "'12345678-1234-5678-1234-567812345678'",
     "'\\u0663'", "'1_0'", "'nan'", "'ka'", "4", "6", "[]", "[1]", "[1, 2]", "['1']", "['a']", "[1, 'a']", "['2020-01-01']", "[[1]]", "[None]",
     "[1.5]", "[True]", "{}", "{'x': 1}", "{'x': '1'}", "{'y': 's'}", "{'y': 's', 'z': 2}", "{'x': '2020-01-01'}",
-    "{'a': 1}", "{'a': None}", "{'a': 'b'}", "{1: 2}", "{'x': 1, 'y': 's'}", "b'1'", "(1, 2)", "(1, 'a')", "[1, 's']",
+    "{'a': 1}", "{'weird': 3}", "{'a': None}", "{'a': 'b'}", "{1: 2}", "{'x': 1, 'y': 's'}", "b'1'", "(1, 2)", "(1, 'a')", "[1, 's']",
 ]
 
 # values for the encode direction, by member expression
@@ -120,7 +151,7 @@ ENCODE_VALUES = {
     "date": ["date(2020, 1, 1)"], "datetime": ["datetime(2020, 1, 1, 10, 20, 30)"],
     "UUID": ["UUID('12345678-1234-5678-1234-567812345678')"], "Decimal": ["Decimal('1.5')"],
     "DC1": ["DC1(x=1)"], "DC2": ["DC2(y='s', z=2)"], "DC3": ["DC3(x=date(2020, 1, 1))"],
-    "Color": ["Color.RED"], "Num": ["Num.TWO", "Num.ONE"], "Kind": ["Kind.A"], "Perm": ["Perm.R", "Perm.R | Perm.W"], "bytes": ["b'x'"],
+    "Color": ["Color.RED"], "Num": ["Num.TWO", "Num.ONE"], "Kind": ["Kind.A"], "Weird": ["Weird(3)"], "Perm": ["Perm.R", "Perm.R | Perm.W"], "bytes": ["b'x'"],
     "List[Union[int, date]]": ["[1, date(2020, 1, 1)]", "[2]"], "Dict[str, Union[None, int, str]]": ["{'a': None, 'b': 1, 'c': 's'}"],
     "Literal['a', 1]": ["'a'", "1"], "Sequence[int]": ["[3]"], "List[Optional[int]]": ["[None, 1]"],
 }
@@ -137,16 +168,16 @@ CURATED_ENC_UNIONS = [
 ]
 
 LIT_POOL = ["0", "1", "2", "-1", "True", "False", "'a'", "'1'", "''", "None", "Color.RED", "Color.GREEN",
-            "Num.ONE", "Lvl.LO", "Lvl.HI", "b'x'", "'r'", "1000", "'x y'", "Odd['a-b']", "Odd['class']", "Kind.A"]
+            "Num.ONE", "Lvl.LO", "Lvl.HI", "b'x'", "'r'", "1000", "'x y'", "Odd['a-b']", "Odd['class']", "Kind.A", "LS"]
 LIT_INPUTS = ["0", "1", "2", "-1", "True", "False", "0.0", "1.0", "2.0", "-1.0", "1.5", "float('nan')", "'a'", "'1'", "''",
-              "None", "'r'", "'g'", "'eA==\\n'", "'eA=='", "'x'", "[]", "[1]", "{}", "'True'", "'None'", "10**20", "1000", "'x y'", "1000.0", "'kw'", "'ka'"]
+              "None", "'r'", "'g'", "'eA==\\n'", "'eA=='", "'x'", "[]", "[1]", "{}", "'True'", "'None'", "10**20", "1000", "'x y'", "1000.0", "'kw'", "'ka'", "'sa'", "LS"]
 LIT_ENC_EXTRA = ["0", "1", "2", "True", "False", "1.0", "0.0", "'a'", "'r'", "'zz'", "None", "Num.ONE", "Num.TWO", "Lvl.LO", "Color.GREEN",
-                 "b'x'", "b'y'", "1000", "[]", "1000.0"]
+                 "b'x'", "b'y'", "1000", "[]", "1000.0", "'sa'", "LS"]
 CURATED_LITS = ["Literal[1]", "Literal[1, True]", "Literal[0, False]", "Literal[True, 1]", "Literal['a']",
                 "Literal['a', None]", "Literal[Color.RED, 'r']", "Literal[Lvl.LO, 1]", "Literal[1, Lvl.LO]",
                 "Literal[b'x', 'eA==\\n']", "Literal[None]", "Literal[Num.ONE, 2]", "Literal[0, False, 'a', None]",
                 "Literal[Literal[1, 2], 'a']", "Literal[1000, 'x y', 2]", "Literal[Num.ONE, True]", "Literal[Num.ONE, 1, True]",
-                "Literal[True, Num.ONE]", "Literal[Lvl.LO, Num.ONE, 1]"]
+                "Literal[True, Num.ONE]", "Literal[Lvl.LO, Num.ONE, 1]", "Literal[LS, 1]", "Literal[LS]", "Literal['a', LS, None]"]
 
 _MOD_COUNTER = [0]
 
@@ -178,7 +209,7 @@ def outcome(fn, *a):
     try:
         r = fn(*a)
     except Exception as e:  # the generated union code catches Exception
-        return ("raise", type(e).__name__)
+        return ("raise", type(e).__name__, isinstance(e, ValueError))
     return ("ok", r)
 
 
@@ -513,6 +544,10 @@ def decode_part(ctx: vlib.Ctx, mod, mem: Members):
                          {"kind": cls, "op": "decode"})
             if observed[0] == "raise" and observed[1] not in ("ValueError", "InvalidFieldValue"):
                 ctx.hist("decode_raise_class", observed[1])
+            # the union method's own raise (no member accepts) is ValueError(value) / InvalidFieldValue
+            if site.path == "union" and observed[0] == "raise" and expected[0] == "raise" and not observed[2]:
+                ctx.fail(f"decode {expr} via {entry} <- {dx}: no member accepts, but the exception is {observed[1]}, not a ValueError",
+                         dict(rep, expected="raise ValueError"), {"kind": "raise-class", "op": "decode"})
             # Coq case
             if site.path == "union":
                 cms = []
@@ -679,7 +714,9 @@ def literal_part(ctx: vlib.Ctx, mod, mem: Members):
     lcases, linfo, lecases, leinfo = [], [], [], []
     for expr, entry in specs:
         site = Site(mod, expr, entry)
-        lits = list(get_literal_values(site.tp))
+        # a listed instance of a str/int/bytes subclass stands for the plain builtin value (fix 12c7fd8)
+        lits = [next((b.__new__(b, l) for b in (str, bytes) if isinstance(l, b) and type(l) is not b and not isinstance(l, _enum.Enum)), l)
+                for l in get_literal_values(site.tp)]
 
         def wire(l):
             return l.value if isinstance(l, _enum.Enum) else l
@@ -1098,13 +1135,11 @@ def typevar_part(ctx: vlib.Ctx, mod, mem: Members):
             # ---- decode
             for dx in rng.sample(ORDER_SENSITIVE, 5) + rng.sample(DECODE_INPUTS, ctx.budget(3, 8)):
                 d = eval(dx, mod.__dict__)
-                if d is None and not constrained:
-                    continue      # "acts as Optional[bound]" depends on the enclosing position; not part of C11
                 accept = lambda m, d=d: mem.accept(m, d)
                 inx = site.in_tpl.format(a=dx)
                 whole = outcome(site.decode, eval(inx, mod.__dict__))
-                if wrapper == "optional" and d is None:
-                    expected = ("ok", None)
+                if d is None and (wrapper == "optional" or not constrained):
+                    expected = ("ok", None)     # an unconstrained TypeVar acts as Optional[default or bound] (58abead, fc913d1)
                 elif constrained:
                     expected = ref_union_decode(members, d, accept)
                 else:
@@ -1133,7 +1168,8 @@ def typevar_part(ctx: vlib.Ctx, mod, mem: Members):
             vals = []
             for m in (site.constraints if constrained else [site.target]):
                 vals += ENCODE_VALUES.get(expr_of.get(repr(m), ""), [])
-            for vx in rng.sample(vals, min(len(vals), 3)):
+            picks = rng.sample(vals, min(len(vals), 3)) + ([] if constrained else ["None"])
+            for vx in picks:
                 v = eval(vx, mod.__dict__)
                 j = next((k for k, mm in enumerate(members) if conforms(mm, v)), None)
                 if j is None:
